@@ -2,8 +2,8 @@ SPECIFICATION Spec
 CONSTANTS
  Hs = {h1, h2}
  Threads = 1
- Pinned = FALSE
- Dev = {"held"}
-INVARIANTS NeverStuck
+ Pinned = TRUE
+ Dev = {"all_sync"}
+INVARIANTS NeverStuck NoSuspendedOwner
 PROPERTY Terminates
 CHECK_DEADLOCK FALSE
